@@ -3,13 +3,17 @@
 package gen
 
 import (
+	"crypto/sha256"
 	"fmt"
+	"math/big"
 	"sync"
 
 	"pgregory.net/rapid"
 
 	"github.com/skycoin/skycoin/src/cipher"
 	"github.com/skycoin/skycoin/src/coin"
+
+	"verif/harness/internal/ref/curve"
 )
 
 // Key is a cached deterministic key pair.
@@ -150,4 +154,29 @@ func UnsignedTxn(uxs []coin.UxOut, outs []coin.TransactionOutput) coin.Transacti
 		panic(err)
 	}
 	return txn
+}
+
+// DetSign signs hash with sec using a nonce derived from (sec, hash), so that generated
+// transactions and blocks are identical on every replay of the same rapid case.  The signature is
+// produced by the reference curve (low-s, correct recovery id) and is accepted by the code under test.
+func DetSign(sec cipher.SecKey, hash cipher.SHA256) cipher.Sig {
+	d := new(big.Int).SetBytes(sec[:])
+	m := new(big.Int).SetBytes(hash[:])
+	seed := append(append([]byte("verif-nonce"), sec[:]...), hash[:]...)
+	for ctr := byte(0); ; ctr++ {
+		kh := sha256.Sum256(append(seed, ctr))
+		k := new(big.Int).SetBytes(kh[:])
+		if !curve.ValidScalar(k) {
+			continue
+		}
+		r, s, recid, ok := curve.Sign(d, m, k)
+		if !ok {
+			continue
+		}
+		var sig cipher.Sig
+		r.FillBytes(sig[0:32])
+		s.FillBytes(sig[32:64])
+		sig[64] = byte(recid)
+		return sig
+	}
 }
